@@ -819,6 +819,223 @@ Qed.
 
 End Zp.
 
+(* ------------------------------------------------------------------ every coefficient structure (Multi_field included) *)
+(* What does not depend on the arithmetic: annotations are supported on earlier keys of the dimension of their simplex, hence
+   every finite pair has its birth before its death and one dimension less.  Needs only x + w*0 = x at x = 0 and -x*0 = 0. *)
+Lemma a_ds_rev_in a : forall i k x, In (k, x) (a_ds_rev a i) -> (i <= k)%nat /\ nth (k - i) a 0 = x /\ x <> 0.
+Proof.
+  induction a as [|y a IH]; intros i k x H; cbn [a_ds_rev] in H; [destruct H|].
+  apply in_app_or in H. destruct H as [H|H].
+  - destruct (IH (S i) k x H) as (A & B & C). split; [lia|]. split; [|exact C].
+    replace (k - i)%nat with (S (k - S i)) by lia. exact B.
+  - destruct (y =? 0) eqn:E; [destruct H|]. destruct H as [H|[]]. inversion H; subst. apply Z.eqb_neq in E.
+    rewrite Nat.sub_diag. repeat split; try lia; assumption.
+Qed.
+
+Section Gen.
+Variable FO : fops.
+Hypothesis Hpte00 : forall w, f_pte FO 0 0 w = 0.
+Hypothesis Htm0 : forall x, f_tm FO x 0 = 0.
+Variable cells : list cell.
+Variables dim_max m : Z.
+Variable sw : bool.
+Hypothesis Hvalid : valid cells.
+
+Definition updG (a : vec) (dk : nat) (inv_x : Z) (c : vec) : vec :=
+  let w := f_tm FO inv_x (vget c dk) in if w =? 0 then c else vzip (fun x y => f_pte FO x y w) c a.
+Lemma updG_nil a dk inv_x : updG a dk inv_x [] = [].
+Proof. unfold updG. rewrite vget_nil, Htm0. reflexivity. Qed.
+Lemma nth_map_updG a dk inv_x (ann : list vec) f : nth f (map (updG a dk inv_x) ann) [] = updG a dk inv_x (nth f ann []).
+Proof. rewrite <- (updG_nil a dk inv_x) at 1. apply map_nth. Qed.
+Lemma updG_support a dk inv_x c j : vget (updG a dk inv_x c) j <> 0 -> vget c j <> 0 \/ (vget c dk <> 0 /\ vget a j <> 0).
+Proof.
+  unfold updG. destruct (f_tm FO inv_x (vget c dk) =? 0) eqn:E; intros H; [left; exact H|].
+  rewrite vget_vzip in H by apply Hpte00.
+  destruct (Z.eq_dec (vget c j) 0) as [E1|E1]; [|left; exact E1]. right. split.
+  - intro E0. rewrite E0, Htm0 in E. discriminate.
+  - intro E2. rewrite E1, E2, Hpte00 in H. contradiction.
+Qed.
+Lemma bannG_support (ann : list vec) dim fs : forall i acc j, vget (bann FO ann dim fs i acc) j <> 0 ->
+  vget acc j <> 0 \/ exists f, In f fs /\ vget (nth f ann []) j <> 0.
+Proof.
+  induction fs as [|f fs IH]; intros i acc j H; cbn [bann] in H.
+  - left. exact H.
+  - destruct (IH _ _ _ H) as [H1|[f' [Hin Hf']]].
+    + rewrite vget_vzip in H1 by apply Hpte00.
+      destruct (Z.eq_dec (vget acc j) 0) as [E1|E1]; [|left; exact E1].
+      destruct (Z.eq_dec (vget (nth f ann []) j) 0) as [E2|E2].
+      * rewrite E1, E2, Hpte00 in H1. contradiction.
+      * right. exists f. split; [left; reflexivity|exact E2].
+    + right. exists f'. split; [right; exact Hin|exact Hf'].
+Qed.
+
+Definition suppG (ann : list vec) (n : nat) : Prop :=
+  forall t j, vget (nth t ann []) j <> 0 -> (j < n)%nat /\ dim_of cells j = dim_of cells t.
+Definition a_ok (a : vec) (n : nat) : Prop := forall j, vget a j <> 0 -> (j < n)%nat /\ S (dim_of cells j) = dim_of cells n.
+Definition fin_ok (n : nat) (x : pair) : Prop :=
+  exists d, p_death x = Some d /\ (p_birth x < d)%nat /\ (d < n)%nat /\ dim_of cells d = S (dim_of cells (p_birth x)).
+
+Record InvG (s : st) (n : nat) : Prop := {
+  G_len : length (s_ann s) = n;
+  G_supp : suppG (s_ann s) n;
+  G_H : InvH cells (s_comp s) n;
+  G_pairs : forall x, In x (s_pairs s) -> fin_ok n x }.
+
+Lemma suppG_snoc_nil ann n : suppG ann n -> suppG (ann ++ [[]]) (S n).
+Proof. intros H t j. rewrite nth_snoc_nil. intros Hj. destruct (H t j Hj). split; [lia|assumption]. Qed.
+Lemma suppG_snoc_unit ann n x : length ann = n -> suppG ann n -> suppG (ann ++ [unit_vec n x]) (S n).
+Proof.
+  intros L H t j. rewrite nth_snoc, L. destruct (Nat.ltb_spec t n) as [Ht|Ht].
+  - intros Hj. destruct (H t j Hj). split; [lia|assumption].
+  - destruct (Nat.eqb_spec t n) as [->|Hne]; [|rewrite vget_nil; intros Hj; contradiction].
+    rewrite vget_unit. destruct (Nat.eqb_spec j n) as [->|Hj]; [|intros Hc; contradiction]. intros _. split; [lia|reflexivity].
+Qed.
+Lemma fin_ok_mono n x : fin_ok n x -> fin_ok (S n) x.
+Proof. intros (d & A & B & C & D). exists d. repeat split; try assumption; lia. Qed.
+
+Lemma destroy_supp ann n a dk inv_x : suppG ann n -> a_ok a n -> vget a dk <> 0 -> suppG (map (updG a dk inv_x) ann) n.
+Proof.
+  intros Hs Ha Hdk t j H. rewrite nth_map_updG in H. apply updG_support in H. destruct H as [H|[H1 H2]].
+  - apply Hs. exact H.
+  - destruct (Hs t dk H1) as [_ Hd1]. destruct (Ha j H2) as [Hj Hd2]. destruct (Ha dk Hdk) as [_ Hd3]. split; [exact Hj|lia].
+Qed.
+
+Lemma kill_loop_G a n : a_ok a n -> forall es prod s, (forall k x, In (k, x) es -> vget a k <> 0) -> suppG (s_ann s) n ->
+  let r := kill_loop FO cells m n a es prod s in
+  suppG (s_ann (fst r)) n /\ length (s_ann (fst r)) = length (s_ann s) /\ s_comp (fst r) = s_comp s /\
+  (forall x, In x (s_pairs (fst r)) -> In x (s_pairs s) \/
+             exists k ch, x = (k, Some n, ch) /\ (k < n)%nat /\ S (dim_of cells k) = dim_of cells n).
+Proof.
+  intros Ha. induction es as [|[k x] es IH]; intros prod s Hes Hs; cbn [kill_loop].
+  - cbn [fst]. split; [exact Hs|split; [reflexivity|split; [reflexivity|intros y Hy; left; exact Hy]]].
+  - destruct (prod =? f_one FO).
+    + cbn [fst]. split; [exact Hs|split; [reflexivity|split; [reflexivity|intros y Hy; left; exact Hy]]].
+    + destruct (f_inv FO x prod) as [inv_x charac]. destruct (inv_x =? 0).
+      * apply IH; [|exact Hs]. intros k' x' H'. apply (Hes k' x'). right. exact H'.
+      * assert (Hk : vget a k <> 0) by (apply (Hes k x); left; reflexivity).
+        set (s' := destroy FO cells m n a k inv_x charac s).
+        assert (Hs' : suppG (s_ann s') n) by (apply (destroy_supp (s_ann s) n a k inv_x Hs Ha Hk)).
+        destruct (IH (prod / charac) s' (fun k' x' H' => Hes k' x' (or_intror H')) Hs') as (A & B & C & D).
+        split; [exact A|]. split; [rewrite B; unfold s'; cbn [destroy s_ann]; apply map_length|].
+        split; [rewrite C; reflexivity|].
+        intros y Hy. destruct (D y Hy) as [Hy'|Hy']; [|right; exact Hy'].
+        unfold s' in Hy'. cbn [destroy s_pairs] in Hy'. unfold add_pair in Hy'.
+        destruct (length_ok cells m k n); [|left; exact Hy'].
+        apply in_app_or in Hy'. destruct Hy' as [Hy'|[<-|[]]]; [left; exact Hy'|].
+        right. exists k, charac. split; [reflexivity|]. apply Ha. exact Hk.
+Qed.
+
+Lemma add_pair_G n b ch ps : (b < n)%nat -> dim_of cells n = S (dim_of cells b) ->
+  (forall x, In x ps -> fin_ok n x) -> forall x, In x (add_pair cells m b n ch ps) -> fin_ok (S n) x.
+Proof.
+  intros Hb Hd H x Hx. unfold add_pair in Hx. destruct (length_ok cells m b n); [|apply fin_ok_mono; apply H; exact Hx].
+  apply in_app_or in Hx. destruct Hx as [Hx|[<-|[]]]; [apply fin_ok_mono; apply H; exact Hx|].
+  exists n. cbn. repeat split; try lia.
+Qed.
+
+Lemma stepG_inv s n : (n < length cells)%nat -> InvG s n -> InvG (step sw FO cells dim_max m s (cell_at cells n)) (S n).
+Proof.
+  intros Hn [L Sp Hh Pp]. destruct (Hvalid n Hn) as [Hfaces Hedge].
+  assert (Hdn : dim_of cells n = c_dim (cell_at cells n)) by reflexivity.
+  assert (Hmono : forall x, In x (s_pairs s) -> fin_ok (S n) x) by (intros x Hx; apply fin_ok_mono; apply Pp; exact Hx).
+  unfold step. rewrite L.
+  destruct (c_dim (cell_at cells n)) as [|[|d]] eqn:Ed.
+  - constructor; cbn [s_ann s_rows s_comp s_pairs].
+    + rewrite app_length. cbn. lia.
+    + apply suppG_snoc_nil. exact Sp.
+    + apply H_snoc; assumption.
+    + exact Hmono.
+  - specialize (Hedge eq_refl).
+    destruct (c_faces (cell_at cells n)) as [|f0 [|f1 [|]]] eqn:Efs; try discriminate Hedge.
+    destruct (Hfaces f0 (or_introl eq_refl)) as [Hv0 Hdv0]. destruct (Hfaces f1 (or_intror (or_introl eq_refl))) as [Hu0 Hdu0].
+    assert (Huv : exists u v, nth (if sw then 1 else 0)%nat [f0; f1] 0%nat = v /\ nth (if sw then 0 else 1)%nat [f0; f1] 0%nat = u /\
+                   (u < n)%nat /\ (v < n)%nat /\ S (dim_of cells u) = 1%nat /\ S (dim_of cells v) = 1%nat).
+    { destruct sw; cbn [nth]; [exists f0, f1|exists f1, f0]; repeat split; assumption. }
+    destruct Huv as (u & v & -> & -> & Hu & Hv & Hdu & Hdv).
+    pose proof (coc_spec cells s n u Hh Hu ltac:(lia)) as Hcu. pose proof (coc_spec cells s n v Hh Hv ltac:(lia)) as Hcv.
+    set (cu := coc s u) in *. set (cv := coc s v) in *.
+    destruct (H_b _ _ _ Hh u cu Hcu) as (_ & Hcun & Hcud). destruct (H_b _ _ _ Hh v cv Hcv) as (_ & Hcvn & Hcvd).
+    destruct (cu =? cv)%nat; cbn [negb].
+    + destruct (1 <? dim_max); constructor; cbn [s_ann s_rows s_comp s_pairs]; try exact Hmono;
+        try (rewrite app_length; cbn; lia); try (apply H_mono; [lia|exact Hh]).
+      * apply suppG_snoc_unit; assumption.
+      * apply suppG_snoc_nil. exact Sp.
+    + destruct (val_of cells cu <? val_of cells cv); constructor; cbn [s_ann s_rows s_comp s_pairs];
+        try (rewrite app_length; cbn; lia); try (apply suppG_snoc_nil; exact Sp);
+        try (apply H_relabel; [lia|assumption|assumption|exact Hh]);
+        apply add_pair_G; try assumption; lia.
+  - set (a := bann FO (s_ann s) (S (S d)) (c_faces (cell_at cells n)) 0 []).
+    assert (Ha : a_ok a n).
+    { intros j Hj. unfold a in Hj. apply bannG_support in Hj. destruct Hj as [Hj|[f [Hf Hj]]]; [rewrite vget_nil in Hj; contradiction|].
+      destruct (Sp f j Hj) as [Hjn Hd]. destruct (Hfaces f Hf) as [_ Hdf]. split; [exact Hjn|]. rewrite Hdn. lia. }
+    destruct (a_ds_rev a 0) as [|e es] eqn:Eds.
+    + destruct (Z.of_nat (S (S d)) <? dim_max); constructor; cbn [s_ann s_rows s_comp s_pairs]; try exact Hmono;
+        try (rewrite app_length; cbn; lia); try (apply H_mono; [lia|exact Hh]).
+      * apply suppG_snoc_unit; assumption.
+      * apply suppG_snoc_nil. exact Sp.
+    + assert (Hes : forall k x, In (k, x) (e :: es) -> vget a k <> 0).
+      { intros k x Hin. rewrite <- Eds in Hin. destruct (a_ds_rev_in a 0 k x Hin) as (_ & B & C).
+        rewrite Nat.sub_0_r in B. unfold vget. rewrite B. exact C. }
+      pose proof (kill_loop_G a n Ha (e :: es) (f_char FO) s Hes Sp) as HK. cbv zeta in HK.
+      destruct (kill_loop FO cells m n a (e :: es) (f_char FO) s) as [s1 prod1]. cbn [fst] in HK.
+      destruct HK as (A & B & C & D).
+      assert (HP : forall x, In x (s_pairs s1) -> fin_ok (S n) x).
+      { intros x Hx. destruct (D x Hx) as [Hx'|(k & ch & -> & Hk & Hdk)]; [apply Hmono; exact Hx'|].
+        exists n. cbn. repeat split; try lia. }
+      destruct (negb (prod1 =? f_one FO) && (Z.of_nat (S (S d)) <? dim_max)); constructor; cbn [s_ann s_rows s_comp s_pairs];
+        try exact HP; try (rewrite app_length, B; cbn; lia); try (rewrite C; apply H_mono; [lia|exact Hh]).
+      * apply suppG_snoc_unit; [lia|exact A].
+      * apply suppG_snoc_nil. exact A.
+Qed.
+
+Lemma InvG0 : InvG st0 0.
+Proof.
+  constructor; cbn [st0 s_ann s_rows s_comp s_pairs].
+  - reflexivity.
+  - intros t j H. destruct t; cbn [nth] in H; rewrite vget_nil in H; contradiction.
+  - constructor; cbn [map]; [intros v c []|constructor|intros k Hk; lia].
+  - intros x [].
+Qed.
+
+Lemma runG_inv pre : forall suf, cells = pre ++ suf -> InvG (run sw FO cells dim_max m pre) (length pre).
+Proof.
+  unfold run. induction pre as [|c pre IH] using rev_ind; intros suf H.
+  - exact InvG0.
+  - rewrite fold_left_app. cbn [fold_left]. rewrite app_length. cbn [length]. rewrite Nat.add_1_r.
+    rewrite <- app_assoc in H. cbn [app] in H.
+    assert (Hc : c = cell_at cells (length pre)).
+    { unfold cell_at. rewrite H. rewrite app_nth2 by lia. rewrite Nat.sub_diag. reflexivity. }
+    rewrite Hc. apply stepG_inv; [|apply (IH (c :: suf)); exact H].
+    rewrite H. rewrite app_length. cbn [length]. lia.
+Qed.
+End Gen.
+
+Theorem pcoh_gen_order_any_field FO cells flag m sw :
+  (forall w, f_pte FO 0 0 w = 0) -> (forall x, f_tm FO x 0 = 0) -> valid cells ->
+  forall b d ch, In (b, Some d, ch) (pcoh_gen sw FO cells flag m) ->
+  (b < d)%nat /\ (d < length cells)%nat /\ dim_of cells d = S (dim_of cells b).
+Proof.
+  intros H1 H2 Hv b d ch H. unfold pcoh_gen in H. destruct (dim_max_of cells flag <=? 0); [destruct H|].
+  apply in_app_or in H. destruct H as [H|H].
+  - pose proof (runG_inv FO H1 H2 cells (dim_max_of cells flag) m sw Hv cells [] (eq_sym (app_nil_r cells))) as HI.
+    destruct (G_pairs _ _ _ HI _ H) as (d' & A & B & C & D). cbn in A. inversion A; subst. cbn in *. repeat split; assumption.
+  - unfold essential in H. apply in_app_or in H. destruct H as [H|H]; apply in_map_iff in H; destruct H as [y [E _]]; discriminate.
+Qed.
+
+Lemma mf_ops_zero primes : (forall w, f_pte (mf_ops primes) 0 0 w = 0) /\ (forall x, f_tm (mf_ops primes) x 0 = 0).
+Proof.
+  unfold mf_ops. cbn [f_pte f_tm]. unfold mf_plus_times_equal, mf_times_minus. split.
+  - intros w. rewrite Z.mul_0_r, Z.add_0_l. apply Zmod_0_l.
+  - intros x. rewrite Z.mul_0_r, Zmod_0_l, Z.sub_0_r. apply Z_mod_same_full.
+Qed.
+
+Theorem pcoh_multifield_order primes cells flag m sw : valid cells ->
+  forall b d ch, In (b, Some d, ch) (pcoh_gen sw (mf_ops primes) cells flag m) ->
+  (b < d)%nat /\ (d < length cells)%nat /\ dim_of cells d = S (dim_of cells b).
+Proof.
+  intros Hv. destruct (mf_ops_zero primes) as [H1 H2]. apply pcoh_gen_order_any_field; assumption.
+Qed.
+
 (* ------------------------------------------------------------------ statements about [pcoh] itself *)
 Definition validb := valid_b.
 Lemma validb_sound cells : validb cells = true -> valid cells.
